@@ -1,6 +1,7 @@
 package main
 
 import (
+	"go/token"
 	"fmt"
 	"go/constant"
 	"go/types"
@@ -62,8 +63,59 @@ func init() {
 func signTested(subject string) func(Atom) bool {
 	return func(a Atom) bool {
 		g, ok := parseGuard(a, nil)
-		return ok && g.Kind == "big" && g.Subject == subject && g.Rel == ">=" && g.Bound.equal(tconst(0))
+		if ok && g.Kind == "big" && g.Subject == subject && g.Rel == ">=" && g.Bound.equal(tconst(0)) {
+			return true
+		}
+		// the test written as a small predicate of the package: isNegative(x) is false
+		if c, isCall := a.V.(*ssa.Call); isCall && a.Want == False && negativePredicate(staticCallee(c)) {
+			args := c.Common().Args
+			return len(args) == 1 && (desc(args[0]) == subject || desc(stripConv(args[0])) == subject)
+		}
+		return false
 	}
+}
+
+// negativePredicate: h(x) is `return x.Sign() < 0` (or == -1) on every path.
+func negativePredicate(h *ssa.Function) bool {
+	if h == nil || h.Blocks == nil || !inModuleFn(h) || len(h.Params) != 1 || h.Signature.Results().Len() != 1 {
+		return false
+	}
+	rets := returnsOf(h)
+	if len(rets) == 0 {
+		return false
+	}
+	for _, r := range rets {
+		b, ok := retValue(r, 0).(*ssa.BinOp)
+		if !ok {
+			return false
+		}
+		c, isCall := stripConv(b.X).(*ssa.Call)
+		if !isCall || bigMethod(c) != "Sign" || rootParamOf(callArgs(c)[0]) != ssa.Value(h.Params[0]) {
+			return false
+		}
+		k, isK := constInt(b.Y)
+		if !isK || !((b.Op == token.LSS && k == 0) || (b.Op == token.EQL && k == -1) || (b.Op == token.LEQ && k == -1)) {
+			return false
+		}
+	}
+	return true
+}
+
+// rootParamOf strips conversions and the Go() accessor of the module's big.Int from a value.
+func rootParamOf(v ssa.Value) ssa.Value {
+	for d := 0; d < 6; d++ {
+		v = stripConv(v)
+		c, ok := v.(*ssa.Call)
+		if !ok {
+			return v
+		}
+		if g := staticCallee(c); g != nil && g.Name() == "Go" && len(c.Common().Args) == 1 {
+			v = c.Common().Args[0]
+			continue
+		}
+		return v
+	}
+	return v
 }
 
 func integerCodecRule(P *Program, R *Report) {
@@ -137,7 +189,12 @@ func integerCodecRule(P *Program, R *Report) {
 		nTests, late := 0, []string{}
 		allInstrs(fn, func(i ssa.Instruction) {
 			c, ok := i.(*ssa.Call)
-			if !ok || bigMethod(c) != "Sign" || desc(callArgs(c)[0]) != "arg#0" {
+			if !ok {
+				return
+			}
+			direct := bigMethod(c) == "Sign" && desc(callArgs(c)[0]) == "arg#0"
+			viaPredicate := negativePredicate(staticCallee(c)) && len(c.Common().Args) == 1 && (desc(c.Common().Args[0]) == "arg#0" || desc(stripConv(c.Common().Args[0])) == "arg#0")
+			if !direct && !viaPredicate {
 				return
 			}
 			nTests++
@@ -174,6 +231,9 @@ func integerCodecRule(P *Program, R *Report) {
 	}
 	if fn := mustFunc(P, R, rule, kIntMarText); fn != nil {
 		mp(P, R, rule, kIntMarText+":refuses-negative", "text is produced only for a non-negative integer", fn, AcceptNilErr(1), &MustPass{Match: func(a Atom) bool {
+			if signTested("arg#0")(a) {
+				return true
+			}
 			g, ok := parseGuard(a, nil)
 			if !ok || g.Kind != "big" || g.Subject != "arg#0" {
 				return false
